@@ -7,7 +7,8 @@ LEVEL_TEXT = ("Clause-level static rules over the instantiated syntax trees of t
               "cycle entry joins exactly the predecessors outside the cycle; vertices join all predecessors from bottom; "
               "refine meets first and narrows afterwards; skipping ends only at the chosen entry; tables start at bottom. "
               "These are necessary conditions of 'least solution when nothing is extrapolated'; the equality of the "
-              "computed solution with the least fixpoint for all graphs is NOT decided (needs the WTO to be well formed, C07).")
+              "computed solution with the least fixpoint for all graphs is NOT decided (needs the WTO to be well formed, C07)."
+              " Under an assumption map every stored / propagated pre-state is met with the assumption of its block after the last join, also for the states coming back along back edges (typestate over the paths of both visit functions); a run started at a block outside the WTO of the CFG entry is a known finding (F82).")
 ASSUMPTIONS = ["clang-14 AST of the instantiated templates is faithful to what g++ compiles",
                "the WTO handed to the iterator is well formed (C07 sentence 1, not decided)",
                "domain operators |, <=, & are sound (C03/C04)"]
